@@ -399,7 +399,19 @@ def check_C03(ctx):
     async_stage(ctx, ["InvC03x"], 80 if ctx.quick() else 600, extra=["--ppanic", 0.35, "--pbarrier", 0.2])
 
 
+# thread-local systems inside batches that are dispatched several times per run (conflict-free by construction:
+# known finding KF1 is about their accesses and their thread, not about how often they run)
+C04_PROGS = [
+    {"prog": {"ops": [add(r=[4], name="o"), batch([add(w=[5], name="i"), tl(r=[6]), tl()], n=3, multi=True, name="m"),
+                      batch([tl(w=[7]), add(r=[8], name="j")], n=2, name="h")]},
+     "modes": ["disp", "seq", "par", "disp"], "gated": True},
+    {"prog": {"ops": [batch([batch([tl(r=[9]), add(w=[10], name="deep")], n=2, multi=True, name="in")], n=2, name="out"), tl(r=[11])]},
+     "modes": ["disp", "disp", "seq"], "gated": True},
+]
+
+
 def check_C04(ctx):
+    exec_scenarios(ctx, ["InvStruct", "InvC04x"], C04_PROGS, "thread-local systems inside batches dispatched several times per run")
     planner_family(ctx, "C04", qdeps=1)
     exec_family(ctx, "C04", extra=["--modes", "disp,par,seq,tlonly,disp", "--ptl", 0.1, "--ppanic", 0.15, "--pool1", 0.15, "--pnest", 0.06], mc=("tl", "batch"),
                 mc_thorough=("flat2", "deps", "batchseq"))
